@@ -106,6 +106,22 @@ impl Reg {
         Reg { api: ApiDescription::new(), entries: vec![], api_name: api_name.to_string() }
     }
 
+    /// register, but never die: every corpus type registers on the unchanged tree, so a
+    /// refusal or a panic here means its schema cannot be published at all — that is
+    /// reported to the oracle as an entry of its own
+    fn guarded_register(&mut self, ep: ApiEndpoint<()>, kind: &str, name: &str) -> bool {
+        let api = &mut self.api;
+        let r = vmon::panics::catch_quiet(std::panic::AssertUnwindSafe(move || api.register(ep)));
+        let why = match r {
+            Ok(Ok(())) => return true,
+            Ok(Err(e)) => format!("refused: {e:?}"),
+            Err(p) => format!("panicked: {}", p.message),
+        };
+        self.entries.push(json!({"name": format!("{name}@{kind}"), "class": "registration-failed", "api": self.api_name,
+            "registration_failed": why, "sites": []}));
+        false
+    }
+
     fn entry<T: JsonSchema>(&mut self, name: &str, class: &str, sites: Vec<Value>) {
         self.entries.push(json!({
             "name": name,
@@ -123,16 +139,17 @@ impl Reg {
         T: JsonSchema + Serialize + DeserializeOwned + Send + Sync + 'static,
     {
         let path = format!("/t/{name}");
-        self.api
-            .register(ApiEndpoint::new(
+        let ep = ApiEndpoint::new(
                 format!("t_{name}"),
                 h_body::<T>,
                 Method::PUT,
                 "application/json",
                 &path,
                 ApiEndpointVersions::All,
-            ))
-            .unwrap_or_else(|e| panic!("register body {name}: {e:?}"));
+            );
+        if !self.guarded_register(ep, "body", name) {
+            return;
+        }
         self.entry::<T>(
             name,
             class,
@@ -149,16 +166,17 @@ impl Reg {
         T: JsonSchema + Serialize + Send + Sync + 'static,
     {
         let path = format!("/r/{name}");
-        self.api
-            .register(ApiEndpoint::new(
+        let ep = ApiEndpoint::new(
                 format!("r_{name}"),
                 h_resp::<T>,
                 Method::GET,
                 "application/json",
                 &path,
                 ApiEndpointVersions::All,
-            ))
-            .unwrap_or_else(|e| panic!("register resp {name}: {e:?}"));
+            );
+        if !self.guarded_register(ep, "resp", name) {
+            return;
+        }
         self.entry::<T>(
             name,
             class,
@@ -173,16 +191,17 @@ impl Reg {
         E: dropshot::HttpResponseError + JsonSchema + Serialize + Send + Sync + 'static,
     {
         let path = format!("/e/{name}");
-        self.api
-            .register(ApiEndpoint::new(
+        let ep = ApiEndpoint::new(
                 format!("e_{name}"),
                 h_err::<E>,
                 Method::GET,
                 "application/json",
                 &path,
                 ApiEndpointVersions::All,
-            ))
-            .unwrap_or_else(|e| panic!("register error {name}: {e:?}"));
+            );
+        if !self.guarded_register(ep, "error", name) {
+            return;
+        }
         self.entry::<E>(
             &format!("{name}@error"),
             class,
@@ -199,16 +218,17 @@ impl Reg {
         T: JsonSchema + DeserializeOwned + Send + Sync + 'static,
     {
         let path = format!("/q/{name}");
-        self.api
-            .register(ApiEndpoint::new(
+        let ep = ApiEndpoint::new(
                 format!("q_{name}"),
                 h_query::<T>,
                 Method::GET,
                 "application/json",
                 &path,
                 ApiEndpointVersions::All,
-            ))
-            .unwrap_or_else(|e| panic!("register query {name}: {e:?}"));
+            );
+        if !self.guarded_register(ep, "query", name) {
+            return;
+        }
         self.entry::<T>(
             &format!("{name}@query"),
             class,
@@ -225,16 +245,17 @@ impl Reg {
         for v in vars {
             path.push_str(&format!("/{{{v}}}"));
         }
-        self.api
-            .register(ApiEndpoint::new(
+        let ep = ApiEndpoint::new(
                 format!("p_{name}"),
                 h_path::<T>,
                 Method::GET,
                 "application/json",
                 &path,
                 ApiEndpointVersions::All,
-            ))
-            .unwrap_or_else(|e| panic!("register path {name}: {e:?}"));
+            );
+        if !self.guarded_register(ep, "path", name) {
+            return;
+        }
         self.entry::<T>(
             &format!("{name}@path"),
             class,
@@ -248,16 +269,17 @@ impl Reg {
         H: JsonSchema + Serialize + Send + Sync + 'static,
     {
         let path = format!("/h/{name}");
-        self.api
-            .register(ApiEndpoint::new(
+        let ep = ApiEndpoint::new(
                 format!("h_{name}"),
                 h_headers::<H>,
                 Method::GET,
                 "application/json",
                 &path,
                 ApiEndpointVersions::All,
-            ))
-            .unwrap_or_else(|e| panic!("register headers {name}: {e:?}"));
+            );
+        if !self.guarded_register(ep, "headers", name) {
+            return;
+        }
         self.entry::<H>(
             &format!("{name}@headers"),
             class,
